@@ -323,7 +323,7 @@ def _sim_rect(B, I0, e, r_min, r_max, dup, exact):
         m = max(F[a] for a in cands)
         i = next(a for a in cands if F[a] == m)
         if k >= r_min:
-            if m != 0 and abs(m - e2) <= REL * max(1, e2):
+            if m != 0 and abs(m - e2) <= Fr(REL) * max(1, e2):
                 safe = False
             if m <= e2:
                 stopped = True
@@ -839,6 +839,8 @@ def correspondence(R, ctx):
             kind = rng.choice(['generic', 'generic', 'zero', 'zero', 'dup', 'dupzero'])
             A = _gen_int(rng, r, n, kind, POOL_INT)
             e = rng.choice([Fr(101, 100), Fr(11, 10), Fr(5, 4), Fr(3, 2), Fr(2)])
+            if rng.random() < 0.08:         # "never add rows for accuracy": e*e overflows to inf in binary64, exact in Qc
+                e = rng.choice([Fr(1e200), Fr(sys.float_info.max), Fr(2e154)])
             e0 = rng.choice(E_ANY)
             dr_min = rng.randint(0, n - r)
             dr_max = rng.choice([None, dr_min, rng.randint(dr_min, n - r + 2), n - r])
@@ -1500,9 +1502,67 @@ def o_tie08(tn, A, kind, C=None):
     return None
 
 
+EXTREME_E = ['1e154', '2e154', '1e200', '1e308', 'max', 'inf', 'np.float64(1e200)', 'np.float64(max)', 'np.float64(inf)',
+             'np.float32(3e38)', 'int 10', 'int 10**100']
+# (a Python int e >= 10**155 is outside the family: e*e is then an int that cannot be converted to float and the comparison
+#  raises OverflowError on the unchanged tree; e is documented as float - reported to the lead as an observation)
+
+
+def _extreme_value(name):
+    return {'max': sys.float_info.max, 'inf': float('inf'), 'np.float64(1e200)': np.float64(1e200),
+            'np.float64(max)': np.float64(sys.float_info.max), 'np.float64(inf)': np.float64('inf'), 'int 10': 10,
+            'int 10**100': 10 ** 100,
+            'np.float32(3e38)': np.float32(3e38)}.get(name) if not name[0].isdigit() else float(name)
+
+
+def o_extreme08(tn, A, dr_min, dr_max, which):
+    """extreme but valid parameter values: a huge accuracy parameter e ("never add rows for accuracy") must give exactly
+    r + dr_min rows with every clause; a huge e0 / tau0 leaves the LU initialisation unchanged (no swap); huge k0 and
+    dr_max (clipped to n - r) change nothing"""
+    A64 = np.array(A, dtype=float)
+    n, r = A64.shape
+    e = _extreme_value(which)
+    for fn, call in [('maxvol_rect', lambda: tn.maxvol_rect(A64.copy(), e, dr_min, dr_max, 1.05, 10)),
+                     ('_maxvol', lambda: tn._maxvol(A64.copy(), e, dr_min, (n - r) if dr_max is None else dr_max, 1.05, 10))]:
+        if fn == '_maxvol' and dr_max == 0:
+            continue
+        try:
+            I, B = call()
+        except Exception as ex:  # noqa
+            return f'{fn} with e = {which} raised {type(ex).__name__}: {str(ex)[:80]} (expected {r + dr_min} rows)'
+        hi = min(n, n if dr_max is None else r + dr_max)
+        want = r + min(dr_min, hi - r)
+        if len(I) != want:
+            return f'{fn} with e = {which}: {len(I)} rows, expected exactly r + dr_min = {want}'
+        msg = _common_clauses(A64, I, np.asarray(B), 1e3, f'{fn} with e = {which}')
+        if msg:
+            return msg
+    with Recorder() as rec:
+        try:
+            I, B = tn.maxvol(A64.copy(), e, 10 ** 12)
+        except Exception as ex:  # noqa
+            return f'maxvol with e = {which}, k = 10**12 raised {type(ex).__name__}: {str(ex)[:80]}'
+    if rec.calls and (list(map(int, I)) != list(rec.calls[0][0]) or not np.array_equal(np.asarray(B), rec.calls[0][1])):
+        return f'maxvol with e = {which}: the LU initialisation was changed although no entry exceeds e'
+    ref = _impl(tn.maxvol_rect, A64.copy(), 1.1, dr_min, dr_max, 1.05, 10)
+    for what, got in [('k0 = 10**12', _impl(tn.maxvol_rect, A64.copy(), 1.1, dr_min, dr_max, 1.05, 10 ** 12)),
+                      ('dr_max = 10**15', _impl(tn.maxvol_rect, A64.copy(), 1.1, dr_min, 10 ** 15, 1.05, 10))
+                      if dr_max is None else ('dr_max given', ref)]:
+        if what.startswith('k0'):
+            full = _impl(tn.maxvol_rect, A64.copy(), 1.1, dr_min, dr_max, 1.05, 100000)
+            msg = _same(got, full, 1e-12)
+        else:
+            msg = _same(got, ref, 1e-12)
+        if msg:
+            return f'maxvol_rect with {what}: {msg}'
+    return None
+
+
 def _crosscut_one(tn, inp):
     f = inp['f']
     A = _unjs(inp['A']).tolist()
+    if f == 'extreme':
+        return o_extreme08(tn, A, inp['dr_min'], inp['dr_max'], inp['which'])
     if f == 'tie':
         return o_tie08(tn, A, inp['kind'])
     a = (A, inp['e'], inp['dr_min'], inp['dr_max'], inp['e0'], inp['k0'])
@@ -1516,9 +1576,10 @@ def _crosscut_one(tn, inp):
 def _check_one(tn, inp, cond=None):
     """run the oracle on one json-able input description; returns failure dict or None"""
     f = inp['f']
-    if f in ('forms', 'history', 'scale', 'tie'):
+    if f in ('forms', 'history', 'scale', 'tie', 'extreme'):
         try:
-            msg = _crosscut_one(tn, inp)
+            with np.errstate(all='ignore'):
+                msg = _crosscut_one(tn, inp)
         except Exception as ex:  # noqa
             msg = f'{f} family: valid call raised ' + repr(ex)[:200]
         return dict(what=msg, input=dict(inp)) if msg else None
@@ -1677,6 +1738,16 @@ def search(R, ctx, deep, hints):
     if undocumented:
         R.notes.append('argument forms outside the documented types that raise (allowed; they never return a different '
                        'answer): ' + '; '.join(sorted(undocumented))[:1500])
+    #     extreme but valid parameter values (huge e / e0 / k0 / dr_max as Python and NumPy scalars)
+    for t in range(200 if deep else 40):
+        r = rng.choice([1, 2, 3, 4])
+        n = rng.choice([r + 1, r + 2, 2 * r + 1, 3 * r, 15])
+        A = nprng.normal(size=(n, r)) if t % 2 else nprng.integers(-4, 5, size=(n, r)).astype(float)
+        if np.linalg.matrix_rank(A) < r:
+            continue
+        dr_min = rng.choice([0, 0, 1, rng.randint(0, n - r)])
+        dr_max = rng.choice([None, None, n - r, rng.randint(dr_min, n - r), 0 if dr_min == 0 else dr_min])
+        run(dict(f='extreme', A=_js(A), dr_min=dr_min, dr_max=dr_max, which=EXTREME_E[t % len(EXTREME_E)]))
     # 2c. the clause "max|B| <= e when the iteration limit is not hit" on MANY small matrices: n = r+1 .. 3r (some 4r),
     #     r = 2 .. 5 (some up to 8), e in {1.0, 1.01, 1.05, 1.1}, k large.  Families in which the LU start is poor, pivots
     #     cycle and swapped-out rows regain dominance: P L with |L| ~ 1 below the diagonal, near-tie magnitudes, rows that
